@@ -186,11 +186,19 @@ def run(ctx):
         with mp.get_context("fork").Pool(16) as pool:
             for col in pool.map(_chunk, chunks):
                 ctx.merge(col)
+    # end-to-end clause: setups whose shapes come from SSI runs on noise-free data of one global system
+    from . import ident
+
+    ident.run_c02_e2e(ctx)
     ctx.exhaustive = True
 
 
 def replay(ctx, body):
     col = core.Collector()
+    if body.get("pipeline"):
+        from . import ident
+
+        return ident.replay(ctx, body)
     check_case(col, body["config"], body["transition"])
     for k, w, _ in col.viol:
         print(k, w)
